@@ -49,11 +49,10 @@ const WSS: [&str; 6] = ["", "", " ", "  ", "\t", "    "];
 const WORDS: [&str; 14] = [
     "alpha", "beta", "gamma", "x", "y=1", "é", "日本", "end.", "a b", "q", "()", "{}", "0", "fin",
 ];
-const LOOKALIKES: [&str; 12] = [
+const LOOKALIKES: [&str; 11] = [
     "TXTPP#runx y",
     "TXTPP#run\tx",
     "TXTPP #run x",
-    "TXTPP# run",
     "txtpp#run x",
     "TXTPP#foo TXTPP#run x",
     "TXTPP#includes a",
@@ -91,6 +90,16 @@ impl SrcBuilder {
                 self.open = None;
             }
         }
+        self.lines.push(l);
+    }
+    /// an ordinary line that must stay ordinary (it carries a tag use site)
+    pub fn text_nomerge(&mut self, l: String) {
+        if let Some((ws, pre, _)) = &self.open {
+            if continues(ws, pre, &l) {
+                self.lines.push("~".to_string());
+            }
+        }
+        self.open = None;
         self.lines.push(l);
     }
     /// the first line of a directive; never merges into the previous block
@@ -364,7 +373,9 @@ fn gen_source(
             0 | 1 => {
                 // text line, possibly using a stored tag
                 let mut l = text_line(rng, opts);
+                let mut uses_tag = false;
                 if !pending_tags.is_empty() && rng.chance(2, 3) {
+                    uses_tag = true;
                     let k = rng.below(pending_tags.len());
                     let t = pending_tags.remove(k);
                     l = match rng.below(4) {
@@ -374,7 +385,11 @@ fn gen_source(
                     };
                     p.sig.push("tag-use".into());
                 }
-                b.text(l);
+                if uses_tag {
+                    b.text_nomerge(l);
+                } else {
+                    b.text(l);
+                }
                 p.sig.push("text".into());
             }
             2 => {
@@ -389,7 +404,8 @@ fn gen_source(
                     b.head(&ws, &pre_opt, format!("{ws}{pre_opt}TXTPP#{kind} {arg}"), false, false);
                     declared.push(out);
                     if kind == "include" {
-                        if listening.take().is_some() {
+                        if let Some(t) = listening.take() {
+                            pending_tags.push(t);
                             p.sig.push("tag-store:include-dep".into());
                         }
                     }
